@@ -186,6 +186,21 @@ pub fn run(ctx: &Ctx) -> i32 {
             }
         });
     }
+    // 1c. every byte value in every mode that can carry it (value tables of the decoder)
+    ctx.par(256, |c, w| {
+        let b = c as u8;
+        w.label(|| format!("value tables byte {}", b));
+        for mode in [Mode::C40, Mode::Text, Mode::X12, Mode::Edifact, Mode::Base256, Mode::Ascii] {
+            for (s, segs) in [
+                (vec![b, b, b], vec![Seg { mode, len: 3, flag: true }]),
+                (vec![b'A', b, b'A', b, b'A', b], vec![Seg { mode, len: 6, flag: true }]),
+                (vec![b, b, b, b], vec![Seg { mode, len: 4, flag: true }]),
+                (vec![b'1', b, b, b, b'1'], vec![Seg { mode: Mode::Ascii, len: 1, flag: true }, Seg { mode, len: 3, flag: true }, Seg { mode: Mode::Ascii, len: 1, flag: true }]),
+            ] {
+                replay_script(&[], &s, &segs, &caps, 3, w);
+            }
+        }
+    });
     // 2. shifted tails: a filler run in each mode parks the position at every residue, then every
     //    tail over sigma8 of length <= 2 with all scripts
     let fillers: Vec<(u8, Mode, bool)> = vec![
@@ -261,7 +276,7 @@ pub fn run(ctx: &Ctx) -> i32 {
         "distinct_nontrivial": ctx.counter("nontrivial"),
         "rule": "states = (string, script prefix) nodes of the script tree of the reference encoder R6, transitions = script extensions (mode x run length x termination form); every complete script that R6 can legally realise \
 (strict tier: forms spelled out by ISO/IEC 16022) is materialised for up to 5 admissible real symbol capacities, decoded by R5 (model self-consistency, engine error otherwise) and replayed against data::decode_data and decode_str. \
-Programs: all strings over an 8-letter class alphabet up to the tier's length with all scripts (longer strings with a bounded number of latches); all strings over a 7-letter alphabet with high bytes (0x80, 0x9F, 0xE1, 0xFF, RS, A, a) up to length 4 (5); a filler run of 1..kmax characters in each mode (with and without unlatch) followed by every tail of length <= 2 (3) with all scripts; \
+Programs: all strings over an 8-letter class alphabet up to the tier's length with all scripts (longer strings with a bounded number of latches); every byte value in runs of every mode that can carry it; all strings over a 7-letter alphabet with high bytes (0x80, 0x9F, 0xE1, 0xFF, RS, A, a) up to length 4 (5); a filler run of 1..kmax characters in each mode (with and without unlatch) followed by every tail of length <= 2 (3) with all scripts; \
 Base256 fields of length 1..1555 (both sides of every multiple of 250) with explicit and with zero length; macro 05/06 and FNC1 headers. non-trivial = materialised script with a non-ASCII run.",
         "exhaustive": true,
         "scripts_materialised": ctx.counter("scripts_materialised"),
